@@ -21,15 +21,15 @@ pkgs=$(grep '^+++ ' "$src/patch.diff" | sed 's|^+++ [ab]/||; s|\t.*||' | xargs -
 echo "packages: $pkgs" >> "$log"
 if ! go build ./... >>"$log" 2>&1; then echo "RESULT does-not-compile" | tee -a "$log"; rm -rf "$scratch"; exit 2; fi
 tests_ok=yes
-for i in 1 2; do go test -count=1 -timeout 20m $pkgs >>"$log" 2>&1 || tests_ok=no; done
+for i in 1 2; do go test -tags unit -count=1 -timeout 20m $pkgs >>"$log" 2>&1 || tests_ok=no; done
 echo "existing tests with change: $tests_ok" | tee -a "$log"
 demo_with=skip; demo_without=skip
 if [ -n "$place" ]; then
   cp "$src/demo_test.go" "$place"
   names=$(grep -o '^func Test[A-Za-z0-9_]*' "$src/demo_test.go" | sed 's/func //' | paste -sd'|')
-  if go test -count=1 -timeout 10m -run "^($names)\$" ./$(dirname "$place")/ >>"$log" 2>&1; then demo_with=pass; else demo_with=fail; fi
+  if go test -tags unit -count=1 -timeout 10m -run "^($names)\$" ./$(dirname "$place")/ >>"$log" 2>&1; then demo_with=pass; else demo_with=fail; fi
   patch -p1 -s -R < "$src/patch.diff" >>"$log" 2>&1
-  if go test -count=1 -timeout 10m -run "^($names)\$" ./$(dirname "$place")/ >>"$log" 2>&1; then demo_without=pass; else demo_without=fail; fi
+  if go test -tags unit -count=1 -timeout 10m -run "^($names)\$" ./$(dirname "$place")/ >>"$log" 2>&1; then demo_without=pass; else demo_without=fail; fi
   rm -f "$place"
   patch -p1 -s --forward < "$src/patch.diff" >>"$log" 2>&1
 fi
